@@ -5,6 +5,7 @@ import Driver.Wire
 import ErgoModel.Json
 import ErgoModel.Path
 import ErgoModel.Url
+import ErgoModel.Program
 import ErgoModel.Render
 open Lean Ergo Ergo.Wire Ergo.Storage
 
@@ -48,6 +49,32 @@ def handle (j : Json) : Json :=
         ("pruned", Json.arr (r.out.pruned.map Json.str).toArray),
         ("reply", match replyOf (envOf (j.getObjValD "env")) req r with | some x => replyJson x | none => Json.null),
         ("post", post)]
+  | "program" =>
+    -- T3: a system-call program as strace reported it (tokens of vlib/strace.summarize) → the shape predicates of ErgoModel.Program
+    let objOf (s : String) : Ergo.Program.Obj := if s.startsWith "lock" then .lock else if s.startsWith "tmp" then .tmp else if s.startsWith "dir" then .dir else .log
+    let callOf (t : String) : Ergo.Program.Call :=
+      let inside := ((t.splitOn "(").getD 1 "").dropRightWhile (· == ')')
+      let name := (t.splitOn "(").headD ""
+      let failed := (t.splitOn "=").length > 1 && !(t.endsWith ")")
+      match name with
+      | "open" => if (inside.splitOn "O_APPEND").length > 1 then .openAppend
+                  else if inside.startsWith "tmp" then .openTmp
+                  else if (inside.splitOn "O_WRONLY").length > 1 || (inside.splitOn "O_RDWR").length > 1 || (inside.splitOn "O_TRUNC").length > 1 then .other
+                  else .openRO (objOf inside)
+      | "flock" => if (inside.splitOn "LOCK_UN").length > 1 then .flockUn else .flockEx (!failed)
+      | "read" | "pread64" => .read (objOf inside)
+      | "write" => .write (objOf inside)
+      | "fsync" => .fsync (objOf inside)
+      | "rename" | "renameat" | "renameat2" => .rename
+      | "ftruncate" => .truncate (objOf inside)
+      | "unlink" | "unlinkat" => .unlink (objOf inside)
+      | "close" => .close (objOf inside)
+      | _ => .other
+    let prog := (strs j "program").map callOf
+    let absStr : Ergo.Program.Abs → String
+      | .lockOk => "lockOk" | .lockBusy => "lockBusy" | .read => "read" | .write => "write" | .noWrite => "noWrite" | .unlock => "unlock"
+    Json.mkObj [("writer", Ergo.Program.writerOK prog), ("busy", Ergo.Program.busyOK prog), ("reader", Ergo.Program.readerOK prog),
+      ("abstract", Json.arr ((Ergo.Program.abstract prog).map fun a => Json.str (absStr a)).toArray)]
   | "view" =>
     -- the JSON values of `list` / `show` for a log
     match replay ((arr j "events").map eventOf) with
